@@ -846,4 +846,472 @@ theorem grow_upgrade_accepted (C : Crypto) (hC : HashWF C) (bs : Array Bytes) (t
     rw [hr', h2.length]; exact hver
   simp [hv]
 
+/-! ### prefixes of the writer's log -/
+
+theorem node_extract (C : Crypto) (bs : Array Bytes) (m : Nat) (hm : m ≤ bs.size) : ∀ d o, (o + 1) * 2 ^ d ≤ m →
+    RefTree.node C (bs.extract 0 m) d o = RefTree.node C bs d o := by
+  intro d
+  induction d with
+  | zero =>
+    intro o h
+    simp only [RefTree.node]
+    rw [extract_getD bs m o hm (by simp at h; omega)]
+  | succ d ih =>
+    intro o h
+    have e : (o + 1) * 2 ^ (d + 1) = (2 * o + 1 + 1) * 2 ^ d := by rw [pow_succ2]; ring
+    have hp := pow_pos' d
+    have h1 : (2 * o + 1) * 2 ^ d ≤ m := by
+      have : (2 * o + 1 + 1) * 2 ^ d = (2 * o + 1) * 2 ^ d + 2 ^ d := by ring
+      omega
+    have h2 : (2 * o + 1 + 1) * 2 ^ d ≤ m := by omega
+    simp only [RefTree.node, ih (2 * o) h1, ih (2 * o + 1) h2]
+
+theorem nodeAt_extract (C : Crypto) (bs : Array Bytes) (m : Nat) (hm : m ≤ bs.size) (d o : Nat) (h : (o + 1) * 2 ^ d ≤ m) :
+    nodeAt C (bs.extract 0 m) d o = nodeAt C bs d o := by
+  simp only [nodeAt, node_extract C bs m hm d o h]
+
+theorem psum_extract (bs : Array Bytes) (m : Nat) (hm : m ≤ bs.size) : ∀ i, i ≤ m → psum (bs.extract 0 m) i = psum bs i := by
+  intro i
+  induction i with
+  | zero => intro _; rfl
+  | succ i ih =>
+    intro h
+    simp only [psum, ih (by omega), sz]
+    rw [extract_getD bs m i hm (by omega)]
+
+theorem size_extract (bs : Array Bytes) (m : Nat) (hm : m ≤ bs.size) : (bs.extract 0 m).size = m := by simp; omega
+
+theorem roots_extract (C : Crypto) (bs : Array Bytes) (m : Nat) (hm : m ≤ bs.size) : RefTree.roots C (bs.extract 0 m) = rootsAt C bs m := by
+  simp only [RefTree.roots, rootsAt, size_extract bs m hm]
+  apply List.map_congr_left
+  intro p hp
+  exact nodeAt_extract C bs m hm p.1 p.2 (rootsStack_bound m p (List.mem_reverse.mp hp))
+
+/-- the replica's invariant relative to the whole log: it represents the first `m` blocks -/
+structure RepRAt (C : Crypto) (bs : Array Bytes) (m : Nat) (c : Core) (d : Disk) (held : Nat → Bool) : Prop where
+  le : m ≤ bs.size
+  closed : ClosedAt C bs m c.tree d.tree
+  roots : c.tree.roots = rootsAt C bs m
+  bytes : c.tree.byteLength = psum bs m
+  mapwf : MapWF c.tree.unflushed
+  aligned : d.tree.size % 40 = 0
+  bits : ∀ i, c.bitfield.get i = held i
+  heldLt : ∀ i, held i = true → i < m
+  leaf : ∀ i, held i = true → c.tree.node? d.tree (Flat.index 0 i) = some (nodeAt C bs 0 i)
+  data : ∀ i, held i = true → ∀ k, k < sz bs i →
+    psum bs i + k < d.data.size ∧ d.data.byte (psum bs i + k) = (bs.getD i []).getD k 0
+  contig : Core.FirstMissing c.bitfield c.header.contiguous
+  small : bs.size < 2 ^ 64 ∧ psum bs bs.size < 2 ^ 64
+
+theorem sparse_extract (C : Crypto) (bs : Array Bytes) (m : Nat) (hm : m ≤ bs.size) (t : Tree) (f : File) :
+    Sparse C (bs.extract 0 m) m t f ↔ Sparse C bs m t f := by
+  constructor
+  · intro h
+    refine ⟨h.length, fun i n hn => ?_, fun p hp => ?_⟩
+    · obtain ⟨d, o, e1, e2, hb⟩ := h.sound i n hn
+      exact ⟨d, o, e1, by rw [e2, nodeAt_extract C bs m hm d o hb], hb⟩
+    · rw [h.roots p hp, nodeAt_extract C bs m hm p.1 p.2 (rootsStack_bound m p hp)]
+  · intro h
+    refine ⟨h.length, fun i n hn => ?_, fun p hp => ?_⟩
+    · obtain ⟨d, o, e1, e2, hb⟩ := h.sound i n hn
+      exact ⟨d, o, e1, by rw [e2, nodeAt_extract C bs m hm d o hb], hb⟩
+    · rw [h.roots p hp, nodeAt_extract C bs m hm p.1 p.2 (rootsStack_bound m p hp)]
+
+theorem closed_extract (C : Crypto) (bs : Array Bytes) (m : Nat) (hm : m ≤ bs.size) (t : Tree) (f : File) :
+    Closed C (bs.extract 0 m) t f ↔ ClosedAt C bs m t f := by
+  have hsz := size_extract bs m hm
+  have hsp1 : ∀ d o, (o / 2 + 1) * 2 ^ (d + 1) ≤ m → (o + 1) * 2 ^ d ≤ m ∧ (sib o + 1) * 2 ^ d ≤ m := by
+    intro d o h
+    have h1 := span_le o d 1
+    have h2 := sib_bound o d
+    simp only [Nat.pow_one] at h1
+    exact ⟨by omega, by omega⟩
+  constructor
+  · intro h
+    refine ⟨(sparse_extract C bs m hm t f).mp (by have := h.sparse; rw [hsz] at this; exact this), fun d o hst hpar => ?_⟩
+    obtain ⟨b1, b2⟩ := hsp1 d o hpar
+    rw [← nodeAt_extract C bs m hm d o b1] at hst
+    have := h.closed d o hst (by rw [hsz]; exact hpar)
+    rw [nodeAt_extract C bs m hm d (sib o) b2, nodeAt_extract C bs m hm (d + 1) (o / 2) hpar] at this
+    exact this
+  · intro h
+    refine ⟨by rw [hsz]; exact (sparse_extract C bs m hm t f).mpr h.sparse, fun d o hst hpar => ?_⟩
+    rw [hsz] at hpar
+    obtain ⟨b1, b2⟩ := hsp1 d o hpar
+    rw [nodeAt_extract C bs m hm d o b1] at hst
+    have := h.closed d o hst hpar
+    rw [nodeAt_extract C bs m hm d (sib o) b2, nodeAt_extract C bs m hm (d + 1) (o / 2) hpar]
+    exact this
+
+theorem repr_extract (C : Crypto) (bs : Array Bytes) (m : Nat) (hm : m ≤ bs.size) (hs : bs.size < 2 ^ 64 ∧ psum bs bs.size < 2 ^ 64)
+    (c : Core) (d : Disk) (held : Nat → Bool) :
+    RepR C (bs.extract 0 m) c d held ↔ RepRAt C bs m c d held := by
+  have hsz := size_extract bs m hm
+  have hps := psum_extract bs m hm
+  constructor
+  · intro h
+    have hlt := h.heldLt
+    rw [hsz] at hlt
+    refine ⟨hm, (closed_extract C bs m hm _ _).mp h.closed, by rw [h.roots, roots_extract C bs m hm],
+      by rw [h.bytes, hsz, hps m (Nat.le_refl _)], h.mapwf, h.aligned, h.bits, hlt, fun i hi => ?_, fun i hi k hk => ?_, h.contig, hs⟩
+    · rw [h.leaf i hi, nodeAt_extract C bs m hm 0 i (by simp; exact hlt i hi)]
+    · have hi' := hlt i hi
+      have e1 : sz (bs.extract 0 m) i = sz bs i := by simp only [sz]; rw [extract_getD bs m i hm hi']
+      have := h.data i hi k (by rw [e1]; exact hk)
+      rw [hps i (by omega), extract_getD bs m i hm hi'] at this
+      exact this
+  · intro h
+    have hpm : psum bs m ≤ psum bs bs.size := psum_mono bs hm
+    refine ⟨(closed_extract C bs m hm _ _).mpr h.closed, by rw [h.roots, roots_extract C bs m hm],
+      by rw [h.bytes, hsz, hps m (Nat.le_refl _)], h.mapwf, h.aligned, h.bits, by rw [hsz]; exact h.heldLt, fun i hi => ?_, fun i hi k hk => ?_, h.contig,
+      by rw [hsz, hps m (Nat.le_refl _)]; exact ⟨by omega, by omega⟩⟩
+    · rw [h.leaf i hi, nodeAt_extract C bs m hm 0 i (by simp; exact h.heldLt i hi)]
+    · have hi' := h.heldLt i hi
+      have e1 : sz (bs.extract 0 m) i = sz bs i := by simp only [sz]; rw [extract_getD bs m i hm hi']
+      rw [e1] at hk
+      have := h.data i hi k hk
+      rw [hps i (by omega), extract_getD bs m i hm hi']
+      exact this
+
+/-! ### the growth round at core level -/
+
+theorem closedAt_congr (C : Crypto) (bs : Array Bytes) (L : Nat) (t t' : Tree) (f f' : File) (h : ClosedAt C bs L t f)
+    (hn : ∀ i, t'.node? f' i = t.node? f i) (hl : t'.length = t.length) : ClosedAt C bs L t' f' := by
+  refine ⟨⟨by rw [hl]; exact h.sparse.length, fun i n hi => h.sparse.sound i n (by rw [← hn]; exact hi),
+    fun p hp => by rw [hn]; exact h.sparse.roots p hp⟩, fun d o hst hpar => ?_⟩
+  rw [hn] at hst
+  have := h.closed d o hst hpar
+  rw [hn, hn]; exact this
+
+theorem maybeFlush_reprAt (C : Crypto) (bs : Array Bytes) (m : Nat) (c : Core) (d : Disk) (held : Nat → Bool) (h : RepRAt C bs m c d held) :
+    RepRAt C bs m c.maybeFlush.1 (d.applyAll c.maybeFlush.2) held :=
+  (repr_extract C bs m h.le h.small _ _ held).mp (maybeFlush_repr C _ c d held ((repr_extract C bs m h.le h.small c d held).mpr h))
+
+/-- the writer's answer to "upgrade me from `m` to `n`" when its log has `n` blocks -/
+def honestGrowth (C : Crypto) (bs : Array Bytes) (fork m n : Nat) (us : List (Nat × Nat)) (sig : Bytes) : Proof :=
+  ⟨fork, none, none, none, some ⟨m, n - m, us.map (fun p => nodeAt C bs p.1 p.2), [], sig⟩⟩
+
+theorem inv_changeset (C : Crypto) (bs : Array Bytes) (m : Nat) (c : Core) (d : Disk) (held : Nat → Bool) (h : RepRAt C bs m c d held) :
+    Inv C bs c.tree d.tree c.tree.changeset m := by
+  have hvt : vt c.tree c.tree.changeset = c.tree := by
+    cases hc : c.tree
+    simp [vt, Tree.changeset, Changeset.nodes, insertAll]
+  refine ⟨?_, h.closed.sparse.length, h.bytes, by rw [hvt]; exact h.closed, fun x hx => by simp [Tree.changeset] at hx⟩
+  show c.tree.roots.reverse = _
+  rw [h.roots, rootsAt, ← List.map_reverse, List.reverse_reverse]
+
+/-- **a growth round at core level**: the replica that represents the first `m` blocks applies the honest upgrade to
+    `n` and then represents the first `n` blocks; what it holds is untouched -/
+theorem apply_growth (C : Crypto) (hC : HashWF C) (bs : Array Bytes) (m n : Nat) (c : Core) (d : Disk) (held : Nat → Bool)
+    (h : RepRAt C bs m c d held) (hm0 : 0 < m) (hmn : m < n) (hn : n ≤ bs.size) (us : List (Nat × Nat))
+    (hup : Up m 0 (rootsStack n).reverse us) (sig : Bytes) (hsl : sig.length = 64)
+    (hver : C.verify c.publicKey (signableAt C bs n c.tree.fork) sig = true) :
+    (c.verifyAndApply C d (honestGrowth C bs c.tree.fork m n us sig)).result = .ok true
+      ∧ RepRAt C bs n (c.verifyAndApply C d (honestGrowth C bs c.tree.fork m n us sig)).core
+          (d.applyAll (c.verifyAndApply C d (honestGrowth C bs c.tree.fork m n us sig)).journal) held
+      ∧ (c.verifyAndApply C d (honestGrowth C bs c.tree.fork m n us sig)).core.tree.fork = c.tree.fork
+      ∧ (c.verifyAndApply C d (honestGrowth C bs c.tree.fork m n us sig)).core.publicKey = c.publicKey := by
+  have hN : n < 2 ^ 64 := by have := h.small.1; omega
+  have hinv0 := inv_changeset C bs m c d held h
+  obtain ⟨cs, h1, h2, h4, h5, h7, h8, h9, h10⟩ := grow_upgrade_accepted C hC bs c.tree d.tree m n hN hm0 hmn c.tree.fork c.publicKey sig
+    c.tree.changeset hinv0 us hup hsl hver
+  have hvv : verifyProof C c.tree d.tree (honestGrowth C bs c.tree.fork m n us sig) c.publicKey = .ok cs := by
+    simp [honestGrowth, Tree.verifyProof, verifyTree, untrustedOf, noSeekOf, h1]
+  have ho1 : cs.origLength = c.tree.length := by simpa [Tree.changeset] using h8
+  have ho2 : cs.origFork = c.tree.fork := by simpa [Tree.changeset] using h9
+  have ha : cs.ancestors = c.tree.length := by simpa [Tree.changeset] using h10
+  have hcmt : c.tree.commitable cs = true := by simp [Tree.commitable, h7, ho1, ho2]
+  have hnl : ¬ (cs.ancestors < cs.origLength) := by omega
+  generalize htr : ({ c.tree with roots := cs.roots, length := cs.length, byteLength := cs.byteLength, fork := cs.fork, signature := cs.signature, unflushed := insertAll c.tree.unflushed cs.nodes } : Tree) = tr
+  have hcommit : c.tree.commit cs = .ok tr := by
+    rw [← htr]
+    simp only [Tree.commit, hcmt, h7, Bool.not_true, Bool.false_eq_true, ite_false, Bool.true_and, decide_eq_true_eq, hnl, ite_true, insertAll]
+  have hds : Core.dataStep c d (honestGrowth C bs c.tree.fork m n us sig) cs = .ok ([], none) := by
+    simp [Core.dataStep, honestGrowth]
+  have hp : (honestGrowth C bs c.tree.fork m n us sig).fork = c.tree.fork := rfl
+  generalize hc1 : ({ c with oplog := (Oplog.appendEntry c.oplog (Core.entryOf cs none c.header).1).1, header := (Core.entryOf cs none c.header).2, bitfield := c.bitfield, tree := tr } : Core) = c1
+  have hshape : c.verifyAndApply C d (honestGrowth C bs c.tree.fork m n us sig)
+      = { core := c1.maybeFlush.1, result := .ok true,
+          journal := (Oplog.appendEntry c.oplog (Core.entryOf cs none c.header).1).2 ++ c1.maybeFlush.2,
+          events := Core.appliedEvents (honestGrowth C bs c.tree.fork m n us sig) none } := by
+    unfold Core.verifyAndApply
+    simp only [hp, ne_eq, not_true_eq_false, ite_false, hvv, hcmt, Bool.not_true, Bool.false_eq_true, hds]
+    unfold Core.applyVerified
+    simp only [hcommit, Core.finishApply, List.nil_append, ← hc1]
+  have hj1 : ∀ op ∈ (Oplog.appendEntry c.oplog (Core.entryOf cs none c.header).1).2, op.store = .oplog := Journal.appendEntry_store _ _
+  have htree : (d.applyAll (Oplog.appendEntry c.oplog (Core.entryOf cs none c.header).1).2).tree = d.tree :=
+    LiveRefine.tree_of_applyAll _ _ (fun op hop => by rw [hj1 op hop]; decide)
+  have hdata : (d.applyAll (Oplog.appendEntry c.oplog (Core.entryOf cs none c.header).1).2).data = d.data :=
+    LiveRefine.data_of_applyAll _ _ (fun op hop => by rw [hj1 op hop]; decide)
+  have hc1t : c1.tree = tr := by rw [← hc1]
+  have hc1b : c1.bitfield = c.bitfield := by rw [← hc1]
+  have hc1h : c1.header.contiguous = c.header.contiguous := by
+    rw [← hc1]; simp only [Core.entryOf, h7, ite_true]
+  -- lookups of the committed tree are those of the virtual tree of the invariant
+  have hlook : ∀ i, tr.node? d.tree i = (vt c.tree cs).node? d.tree i := by
+    intro i; rw [← htr]; exact node?_congr _ _ _ _ rfl
+  have hnodesRef : ∀ x ∈ cs.nodes, ∃ dd o, x = nodeAt C bs dd o ∧ (o + 1) * 2 ^ dd ≤ n := by
+    intro x hx
+    exact h2.nodesRef x (by simpa [Changeset.nodes] using hx)
+  have hrep1 : RepRAt C bs n c1 (d.applyAll (Oplog.appendEntry c.oplog (Core.entryOf cs none c.header).1).2) held := by
+    obtain ⟨_, hold, _⟩ := insert_lookup C hC bs c.tree tr d.tree cs.nodes (fun x hx => by obtain ⟨dd, o, e, _⟩ := hnodesRef x hx; exact ⟨dd, o, e⟩)
+      (by rw [← htr])
+    refine ⟨hn, ?_, (by rw [hc1t, ← htr]; exact inv_roots C bs c.tree d.tree cs n h2), (by rw [hc1t, ← htr]; exact h2.bytes), ?_,
+      (by rw [htree]; exact h.aligned), (by intro i; rw [hc1b]; exact h.bits i), (fun i hi => by have := h.heldLt i hi; omega), ?_, ?_,
+      (by rw [hc1b, hc1h]; exact h.contig), h.small⟩
+    · rw [hc1t, htree]
+      exact closedAt_congr C bs n (vt c.tree cs) tr d.tree d.tree h2.closed hlook (by rw [← htr]; rfl)
+    · rw [hc1t, ← htr]
+      apply mapWF_insertAll _ _ h.mapwf
+      intro x hx
+      obtain ⟨dd, o, rfl, hb⟩ := hnodesRef x hx
+      refine ⟨nodeAt_hash_len C hC bs dd o, ?_⟩
+      have a1 := nodeAt_length_le C bs dd o
+      have a2 := psum_mono bs (Nat.le_trans hb hn)
+      have := h.small.2
+      omega
+    · intro i hi
+      rw [hc1t, htree]
+      exact hold _ _ (h.leaf i hi)
+    · intro i hi k hk
+      rw [hdata]; exact h.data i hi k hk
+  rw [hshape]
+  refine ⟨rfl, ?_, ?_, ?_⟩
+  · simp only []
+    rw [Journal.applyAll_append]
+    exact maybeFlush_reprAt C bs n _ _ _ hrep1
+  · simp only []
+    rw [LiveRefine.maybeFlush_eq]
+    split
+    · simp only [Core.flushAll, Tree.flush]; rw [hc1t, ← htr]; exact h4
+    · show c1.tree.fork = _; rw [hc1t, ← htr]; exact h4
+  · simp only []
+    rw [LiveRefine.maybeFlush_eq]
+    split
+    · simp only [Core.flushAll]; rw [← hc1]
+    · show c1.publicKey = _; rw [← hc1]
+
+/-! ### the honest position list exists -/
+
+theorem odd_decomp : ∀ L : Nat, 0 < L → ∃ J M, L = M * 2 ^ J ∧ M % 2 = 1 := by
+  intro L
+  induction L using Nat.strongRecOn with
+  | _ L ih =>
+    intro hL
+    by_cases hodd : L % 2 = 1
+    · exact ⟨0, L, by simp, hodd⟩
+    · obtain ⟨J, M, e, hM⟩ := ih (L / 2) (by omega) (by omega)
+      refine ⟨J + 1, M, ?_, hM⟩
+      rw [pow_succ2]
+      have : M * (2 * 2 ^ J) = 2 * (M * 2 ^ J) := by ring
+      rw [this, ← e]; omega
+
+theorem grow_exists (d o : Nat) : ∀ (k L : Nat), (o + 1) * 2 ^ d - L ≤ k → o * 2 ^ d < L → L ≤ (o + 1) * 2 ^ d →
+    ∃ gs, Grow gs L ((o + 1) * 2 ^ d) := by
+  intro k
+  induction k with
+  | zero =>
+    intro L hk h1 h2
+    have : L = (o + 1) * 2 ^ d := by omega
+    subst this
+    exact ⟨[], Grow.nil _⟩
+  | succ k ih =>
+    intro L hk h1 h2
+    by_cases hLE : L = (o + 1) * 2 ^ d
+    · subst hLE; exact ⟨[], Grow.nil _⟩
+    · have hlt : L < (o + 1) * 2 ^ d := by omega
+      obtain ⟨J, M, e, hM⟩ := odd_decomp L (by omega)
+      have hpd := pow_pos' d
+      have hpJ := pow_pos' J
+      -- the block is smaller than the root
+      have hJd : J < d := by
+        by_contra hge
+        have hdv : 2 ^ d ∣ L := by rw [e]; exact Nat.dvd_trans (Nat.pow_dvd_pow 2 (by omega : d ≤ J)) (Nat.dvd_mul_left _ _)
+        have g1 := mult_gap (2 ^ d) (o * 2 ^ d) L (Nat.dvd_mul_left _ _) hdv h1
+        have : (o + 1) * 2 ^ d = o * 2 ^ d + 2 ^ d := by ring
+        omega
+      have hfit : M * 2 ^ J + 2 ^ J ≤ (o + 1) * 2 ^ d := by
+        have hdvE : 2 ^ J ∣ (o + 1) * 2 ^ d := Nat.dvd_trans (Nat.pow_dvd_pow 2 (by omega : J ≤ d)) (Nat.dvd_mul_left _ _)
+        have := mult_gap (2 ^ J) (M * 2 ^ J) _ (Nat.dvd_mul_left _ _) hdvE (by rw [← e]; exact hlt)
+        exact this
+      obtain ⟨gs, hg⟩ := ih (M * 2 ^ J + 2 ^ J) (by omega) (by omega) hfit
+      exact ⟨(J, M) :: gs, by rw [e]; exact Grow.cons J M _ gs hM hfit hg⟩
+
+theorem up_exists (m n : Nat) (hmn : m < n) : ∀ (ln : List (Nat × Nat)) (s : Nat), Cover ln s n → DecDepth ln → s ≤ m → ∃ us, Up m s ln us := by
+  intro ln
+  induction ln with
+  | nil => intro s hc _ hs; have := UpgradeComplete.cover_nil_eq _ _ hc; omega
+  | cons p ln ih =>
+    intro s hc hdec hs
+    obtain ⟨d, o⟩ := p
+    obtain ⟨c1, c2, c3⟩ := cover_lt _ s n d o ln rfl hc hdec
+    have hE : (o + 1) * 2 ^ d = s + 2 ^ d := by rw [c3]; ring
+    have hrest : Cover ln ((o + 1) * 2 ^ d) n := by
+      cases hc with
+      | cons _ _ _ _ _ _ hr => exact hr
+    by_cases hend : (o + 1) * 2 ^ d ≤ m
+    · obtain ⟨us, hu⟩ := ih _ hrest (List.pairwise_cons.mp hdec).2 hend
+      exact ⟨us, by rw [c3]; exact Up.skip d o ln us hend hu⟩
+    · by_cases hsm : s = m
+      · exact ⟨(d, o) :: ln, by rw [hsm]; exact Up.plain _⟩
+      · obtain ⟨gs, hg⟩ := grow_exists d o ((o + 1) * 2 ^ d - m) m (Nat.le_refl _) (by omega) (by omega)
+        exact ⟨gs ++ ln, by rw [c3]; exact Up.grow d o ln gs (by omega) (by omega) hg⟩
+
+/-- for every pair of lengths `0 ≤ m < n` there is an honest position list -/
+theorem up_exists0 (m n : Nat) (hmn : m < n) : ∃ us, Up m 0 (rootsStack n).reverse us :=
+  up_exists m n hmn _ 0 (cover_roots n) (rootsStack_rev_dec n) (Nat.zero_le _)
+
+/-! ### growth rounds and block requests, in any order -/
+
+theorem sibPath_extract (C : Crypto) (bs : Array Bytes) (m : Nat) (hm : m ≤ bs.size) : ∀ (k d o : Nat), (o / 2 ^ k + 1) * 2 ^ (d + k) ≤ m →
+    sibPath C (bs.extract 0 m) d o k = sibPath C bs d o k := by
+  intro k
+  induction k with
+  | zero => intro d o _; rfl
+  | succ k ih =>
+    intro d o h
+    have h' : (o / 2 / 2 ^ k + 1) * 2 ^ (d + 1 + k) ≤ m := by
+      rw [div_pow_succ, show d + 1 + k = d + (k + 1) by omega]; exact h
+    have hsp := span_le (o / 2) (d + 1) k
+    have hsb := sib_bound o d
+    simp only [sibPath, ih (d + 1) (o / 2) h']
+    rw [nodeAt_extract C bs m hm d (sib o) (by omega)]
+
+theorem honestBlock_extract (C : Crypto) (bs : Array Bytes) (m : Nat) (c : Core) (d : Disk) (held : Nat → Bool) (h : RepRAt C bs m c d held)
+    (i : Nat) (hi : i < m) : honestBlock C (bs.extract 0 m) c d i = honestBlock C bs c d i := by
+  obtain ⟨_, hin⟩ := missingNodes_spec C bs m c.tree d.tree h.closed.sparse (by have := h.small.1; have := h.le; omega) i hi
+  simp only [honestBlock]
+  rw [extract_getD bs m i h.le hi, sibPath_extract C bs m h.le _ 0 i (by simpa using hin)]
+
+/-- one honest block exchange on a replica that represents the first `m` blocks -/
+theorem apply_block_at (C : Crypto) (hC : HashWF C) (bs : Array Bytes) (m : Nat) (c : Core) (d : Disk) (held : Nat → Bool)
+    (h : RepRAt C bs m c d held) (i : Nat) (hi : i < m) :
+    (c.verifyAndApply C d (honestBlock C bs c d i)).result = .ok true
+      ∧ RepRAt C bs m (c.verifyAndApply C d (honestBlock C bs c d i)).core
+          (d.applyAll (c.verifyAndApply C d (honestBlock C bs c d i)).journal) (fun j => held j || j == i) := by
+  have hR := (repr_extract C bs m h.le h.small c d held).mpr h
+  obtain ⟨r1, r2⟩ := apply_block C hC (bs.extract 0 m) c d held hR i (by rw [size_extract bs m h.le]; exact hi)
+  rw [honestBlock_extract C bs m c d held h i hi] at r1 r2
+  exact ⟨r1, (repr_extract C bs m h.le h.small _ _ _).mp r2⟩
+
+/-- what the replica does next: upgrade to the writer's current length `n`, or fetch block `i` -/
+inductive Act
+  | grow (n : Nat) (us : List (Nat × Nat)) (sig : Bytes)
+  | fetch (i : Nat)
+
+def actProof (C : Crypto) (bs : Array Bytes) (c : Core) (d : Disk) : Act → Proof
+  | .grow n us sig => honestGrowth C bs c.tree.fork c.tree.length n us sig
+  | .fetch i => honestBlock C bs c d i
+
+def play (C : Crypto) (bs : Array Bytes) : Core × Disk → List Act → Core × Disk
+  | s, [] => s
+  | (c, d), a :: r =>
+    play C bs ((c.verifyAndApply C d (actProof C bs c d a)).core, d.applyAll (c.verifyAndApply C d (actProof C bs c d a)).journal) r
+
+def playResults (C : Crypto) (bs : Array Bytes) : Core × Disk → List Act → List (R Bool)
+  | _, [] => []
+  | (c, d), a :: r =>
+    (c.verifyAndApply C d (actProof C bs c d a)).result ::
+      playResults C bs ((c.verifyAndApply C d (actProof C bs c d a)).core, d.applyAll (c.verifyAndApply C d (actProof C bs c d a)).journal) r
+
+/-- the acts are honest: lengths only grow and stay inside the log, every upgrade carries an honest position list and
+    a signature of the writer for that length, every block index lies below the replica's current length -/
+def OkActs (C : Crypto) (bs : Array Bytes) (pk : Bytes) (fork : Nat) : Nat → List Act → Prop
+  | _, [] => True
+  | m, .grow n us sig :: r => m < n ∧ n ≤ bs.size ∧ Up m 0 (rootsStack n).reverse us ∧ sig.length = 64
+      ∧ C.verify pk (signableAt C bs n fork) sig = true ∧ OkActs C bs pk fork n r
+  | m, .fetch i :: r => i < m ∧ OkActs C bs pk fork m r
+
+def lenAfter : Nat → List Act → Nat
+  | m, [] => m
+  | _, .grow n _ _ :: r => lenAfter n r
+  | m, .fetch _ :: r => lenAfter m r
+
+def fetched : List Act → Nat → Bool
+  | [], _ => false
+  | .grow _ _ _ :: r, j => fetched r j
+  | .fetch i :: r, j => j == i || fetched r j
+
+theorem play_repr (C : Crypto) (hC : HashWF C) (bs : Array Bytes) (pk : Bytes) (fork : Nat) :
+    ∀ (acts : List Act) (m : Nat) (c : Core) (d : Disk) (held : Nat → Bool), RepRAt C bs m c d held → 0 < m →
+      c.publicKey = pk → c.tree.fork = fork → OkActs C bs pk fork m acts →
+      RepRAt C bs (lenAfter m acts) (play C bs (c, d) acts).1 (play C bs (c, d) acts).2 (fun j => held j || fetched acts j)
+        ∧ playResults C bs (c, d) acts = acts.map (fun _ => .ok true) := by
+  intro acts
+  induction acts with
+  | nil =>
+    intro m c d held h _ _ _ _
+    refine ⟨?_, rfl⟩
+    have : (fun j => held j || fetched [] j) = held := by funext j; simp [fetched]
+    rw [this]; exact h
+  | cons a r ih =>
+    intro m c d held h hm0 hpk hfk hok
+    cases a with
+    | grow n us sig =>
+      obtain ⟨o1, o2, o3, o4, o5, o6⟩ := hok
+      have hlen : c.tree.length = m := h.closed.sparse.length
+      obtain ⟨r1, r2, r3, r4⟩ := apply_growth C hC bs m n c d held h hm0 o1 o2 us o3 sig o4 (by rw [hpk, hfk]; exact o5)
+      have hact : actProof C bs c d (.grow n us sig) = honestGrowth C bs c.tree.fork m n us sig := by simp [actProof, hlen]
+      rw [← hact] at r1 r2 r3 r4
+      obtain ⟨q1, q2⟩ := ih n (c.verifyAndApply C d (actProof C bs c d (.grow n us sig))).core
+        (d.applyAll (c.verifyAndApply C d (actProof C bs c d (.grow n us sig))).journal) held r2 (by omega) (by rw [r4, hpk]) (by rw [r3, hfk]) o6
+      refine ⟨?_, by simp only [playResults, r1, List.map_cons]; rw [q2]⟩
+      simpa [play, lenAfter, fetched] using q1
+    | fetch i =>
+      obtain ⟨o1, o2⟩ := hok
+      obtain ⟨r1, r2⟩ := apply_block_at C hC bs m c d held h i o1
+      have hshape := (repr_extract C bs m h.le h.small c d held).mpr h
+      -- the block answer leaves key and fork alone
+      have hkeep : (c.verifyAndApply C d (honestBlock C bs c d i)).core.publicKey = c.publicKey
+          ∧ (c.verifyAndApply C d (honestBlock C bs c d i)).core.tree.fork = c.tree.fork := by
+        rw [← honestBlock_extract C bs m c d held h i o1,
+          apply_block_shape C (bs.extract 0 m) c d held hshape i (by rw [size_extract bs m h.le]; exact o1)]
+        simp only []
+        rw [LiveRefine.maybeFlush_eq]
+        split
+        · exact ⟨rfl, rfl⟩
+        · exact ⟨rfl, rfl⟩
+      obtain ⟨q1, q2⟩ := ih m (c.verifyAndApply C d (honestBlock C bs c d i)).core
+        (d.applyAll (c.verifyAndApply C d (honestBlock C bs c d i)).journal) _ r2 hm0 (by rw [hkeep.1, hpk]) (by rw [hkeep.2, hfk]) o2
+      refine ⟨?_, by simp only [playResults, actProof, r1, List.map_cons]; rw [q2]⟩
+      have : (fun j => held j || fetched (Act.fetch i :: r) j) = (fun j => (held j || j == i) || fetched r j) := by
+        funext j; simp [fetched, Bool.or_assoc]
+      rw [this]
+      simpa [play, lenAfter, actProof] using q1
+
+/-! ### reading back, and first contact at a prefix -/
+
+theorem get_held_at (C : Crypto) (bs : Array Bytes) (m : Nat) (c : Core) (d : Disk) (held : Nat → Bool) (h : RepRAt C bs m c d held)
+    (i : Nat) (hi : held i = true) : (c.getBlock d i).result = .ok (some (bs.getD i [])) := by
+  have := get_held C (bs.extract 0 m) c d held ((repr_extract C bs m h.le h.small c d held).mpr h) i hi
+  rw [extract_getD bs m i h.le (h.heldLt i hi)] at this
+  exact this
+
+theorem get_missing_at (C : Crypto) (bs : Array Bytes) (m : Nat) (c : Core) (d : Disk) (held : Nat → Bool) (h : RepRAt C bs m c d held)
+    (i : Nat) (hi : held i = false) : (c.getBlock d i).result = .ok none :=
+  get_missing C (bs.extract 0 m) c d held ((repr_extract C bs m h.le h.small c d held).mpr h) i hi
+
+theorem signable_extract (C : Crypto) (bs : Array Bytes) (n : Nat) (hn : n ≤ bs.size) (fork : Nat) :
+    RefTree.signableOf C (bs.extract 0 n) fork = signableAt C bs n fork := by
+  simp only [RefTree.signableOf, signableAt, rootsHash, roots_extract C bs n hn, size_extract bs n hn]
+
+/-- the writer's answer to "upgrade me from 0 to `n`" when its log has `n` blocks -/
+def honestFirst (C : Crypto) (bs : Array Bytes) (fork n : Nat) (sig : Bytes) : Proof :=
+  ⟨fork, none, none, none, some ⟨0, n, rootsAt C bs n, [], sig⟩⟩
+
+theorem first_contact_at (C : Crypto) (hC : HashWF C) (bs : Array Bytes) (hs : bs.size < 2 ^ 64 ∧ psum bs bs.size < 2 ^ 64) (n : Nat) (h0 : 0 < n)
+    (hn : n ≤ bs.size) (c : Core) (d : Disk) (h : FreshR C (bs.extract 0 n) c d) (sig : Bytes) (hsl : sig.length = 64)
+    (hver : C.verify c.publicKey (signableAt C bs n c.tree.fork) sig = true) :
+    (c.verifyAndApply C d (honestFirst C bs c.tree.fork n sig)).result = .ok true
+      ∧ RepRAt C bs n (c.verifyAndApply C d (honestFirst C bs c.tree.fork n sig)).core
+          (d.applyAll (c.verifyAndApply C d (honestFirst C bs c.tree.fork n sig)).journal) (fun _ => false)
+      ∧ (c.verifyAndApply C d (honestFirst C bs c.tree.fork n sig)).core.tree.fork = c.tree.fork
+      ∧ (c.verifyAndApply C d (honestFirst C bs c.tree.fork n sig)).core.publicKey = c.publicKey := by
+  have hp : honestFirst C bs c.tree.fork n sig = honestUpgrade C (bs.extract 0 n) c.tree.fork sig := by
+    simp only [honestFirst, honestUpgrade, roots_extract C bs n hn, size_extract bs n hn]
+  rw [hp]
+  obtain ⟨r1, r2, r3, r4⟩ := apply_first_upgrade C hC (bs.extract 0 n) c d h (by rw [size_extract bs n hn]; exact h0) sig hsl
+    (by rw [signable_extract C bs n hn]; exact hver)
+  exact ⟨r1, (repr_extract C bs n hn hs _ _ _).mp r2, r3, r4⟩
+
 end HC.Growth
